@@ -281,6 +281,8 @@ def check_entry_verbatim(ix, rep, f, kind, rule='R-ENTRY'):
             fn = ast.unparse(v.func)
             if fn in ('list', 'copy', 'copy.copy', 'copy.deepcopy', 'deepcopy'):
                 return verbatim(v.args[0])
+        if isinstance(v, ast.Call) and not v.keywords and not v.args and isinstance(v.func, ast.Attribute) and v.func.attr in ('copy', 'tolist'):
+            return verbatim(v.func.value)          # v.copy(), array.tolist(): the same numbers in a new container
         return False
     n = 0
     for st in ast.walk(f.node):
